@@ -199,14 +199,7 @@ func excludedScalar(t string, v *Val) bool {
 		if w := intColBytes(t); w > 0 {
 			return !KindSigned(v.Kind) && v.Int.Cmp(pow2(uint(8*w-1))) >= 0
 		}
-		switch t {
-		case "date":
-			if v.Kind == "int64" && v.Tag == "i" {
-				days := floorDiv(v.Int, 86400000)
-				return !fitsU(4, new(big.Int).Add(days, big.NewInt(2147483648))) // KF-C12-5
-			}
-		}
-		return false
+		return false // (KF-C12-5 repaired: an out-of-range day is an error)
 	case "t":
 		sec, nsec := v.Int, v.Int2
 		if sec.Cmp(big.NewInt(zeroTimeSec)) == 0 && nsec.Sign() == 0 {
@@ -216,14 +209,9 @@ func excludedScalar(t string, v *Val) bool {
 		if !fitsS(8, new(big.Int).Mul(sec, big.NewInt(1000))) || !fitsS(8, exact) {
 			return true
 		}
-		if t == "date" {
-			return !fitsU(4, new(big.Int).Add(floorDiv(sec, 86400), big.NewInt(2147483648))) // KF-C12-5
-		}
 		return false
 	case "nf32":
 		return quiet32(v.Bits) != v.Bits
-	case "ip":
-		return len(v.Bytes) != 4 && len(v.Bytes) != 16
 	case "s":
 		return t == "date" || t == "duration" || t == "inet"
 	}
@@ -235,7 +223,7 @@ func marshalsNil(v *Val) bool {
 	case "nilptr", "unset", "bnil", "nbnil", "slnil", "mapnil":
 		return true
 	case "ip":
-		return len(v.Bytes) != 4 && len(v.Bytes) != 16
+		return len(v.Bytes) == 0 // (KF-C12-10 repaired: other lengths than 0 / 4 / 16 are errors)
 	}
 	return false
 }
